@@ -18,6 +18,7 @@ from ..core import (
     ContainerValueMixin,
     Field,
     Schema,
+    ValidationError,
     isconfigtype,
 )
 
@@ -111,10 +112,19 @@ class ListProxy(list, ContainerValueMixin):
                 cfg._parent = self.cfg
                 cfg.load_tree(value)  # type: ignore
             elif isinstance(value, Config):
+                previous = (value._parent, value._key, value._container)
                 value._parent = self.cfg
                 value._key = self.list_field._key
                 value._container = self
-                value.validate()
+                try:
+                    value.validate()
+                except Exception as err:
+                    # a rejected item stays with whoever holds it (its key file is found through
+                    # its parent); the error keeps naming the position the item was offered for
+                    if isinstance(err, ValidationError):
+                        err._ref_path = err.ref_path
+                    value._parent, value._key, value._container = previous
+                    raise
                 cfg = value
             else:
                 raise ValueError("invalid configuration object")
